@@ -33,6 +33,11 @@ import GcArena.Model.Conv
         or the second from `Gc::new`; each converted by its chain.  Answer
         `ok cmp=<tags of the common Rust type|-> eq=<typed ptr_eq|-> eeq=<ptr_eq after erase>` |
         `ill-typed <1|2> <k>`.
+    zkeep <holder> <align> <maxalign> <full|inc>
+        a `ZstCache<maxalign>` held in the root as <holder> (root | field | option | box | vec |
+        tuple), one zero-sized value of that alignment allocated, a collection schedule, then
+        `alloc` + `alloc_static` again.  Answer `ok shared=<0|1> kept=<cache block not released>
+        same=<same pointer as before|-> count=<allocations alive afterwards, holder's own excluded>`.
     prefix <n> <k>              `Gc::from_ptr` of a `[u8]` prefix (length k) of an allocation of n
                                 bytes.  Answer `ok eq=<0|1> weq=<0|1> eeq=<0|1>`.
     zst <size> <align> <maxalign> <alloc|alloc_static>
@@ -228,6 +233,25 @@ def answer (ws : List String) : String :=
       | some t1, some t2, some ch1, some ch2 => answerAlias m t1 t2 rel ch1 ch2
       | _, _, _, _ => "bad-query"
     | none => "bad-query"
+  | ["zkeep", holder, align, maxAlign, sched] =>
+    -- a cache held in the root (directly or inside a container / struct field) keeps its block
+    -- through any collection schedule; a later `alloc` + `alloc_static` of a qualifying type
+    -- return the same pointer again and allocate nothing, of a non-qualifying one two fresh blocks
+    if ¬ (["root", "field", "option", "box", "vec", "tuple"].contains holder) ∨ ¬ (sched = "full" ∨ sched = "inc") then
+      "bad-query"
+    else
+      match align.toNat?, maxAlign.toNat? with
+      | some align, some maxAlign =>
+        if align = 0 ∨ maxAlign = 0 then "bad-query" else
+        let c : Cache := ⟨0, maxAlign * 7, maxAlign⟩
+        let r1 := c.alloc 1 0 align
+        let r2 := c.alloc 2 0 align
+        let r3 := c.alloc 3 0 align
+        let sh := zstShared 0 align maxAlign
+        let same := if sh then (if r2.obj = r1.obj ∧ r3.obj = r1.obj then "1" else "0") else "-"
+        let count := 1 + (if r2.fresh then 1 else 0) + (if r3.fresh then 1 else 0)
+        s!"ok shared={if sh then 1 else 0} kept=1 same={same} count={count}"
+      | _, _ => "bad-query"
   | ["prefix", n, k] =>
     -- `Gc::from_ptr` of a `[u8]` prefix of the same allocation: same (obj, off), other length
     match n.toNat?, k.toNat? with
